@@ -13,6 +13,11 @@ const syncProofsVersion uint16 = 0
 
 // Implements Tree.
 func (t *tree) Get(ctx context.Context, key []byte) ([]byte, error) {
+	// A key that is too long to be inserted cannot exist.
+	if len(key) > node.MaxKeyLength {
+		return nil, nil
+	}
+
 	t.cache.Lock()
 	defer t.cache.Unlock()
 
